@@ -78,16 +78,23 @@ structure Out where
   ctlWdataWe : Nat
 deriving Repr
 
+/-- a master's delayed write strobe (`master.wdata.ready`) -/
+def delayedW (c : Cfg) (s : State) (nm : Nat) : Bool := (s.wdl[nm]!).getD (c.wlat - 1) false
+/-- a master's delayed read strobe (`master.rdata.valid`) -/
+def delayedR (c : Cfg) (s : State) (nm : Nat) : Bool := (s.rdl[nm]!).getD (c.rlat - 1) false
+/-- masters whose delayed write strobe is up -/
+def writers (c : Cfg) (s : State) : List Nat := (List.range c.nmasters).filter (delayedW c s)
+
+/-- `Case(Cat(*master_wdata_readys), {2**nm: ...})`: data of the master when exactly one is ready, else 0 -/
+def routeWdata (ms : Array MasterIn) : List Nat → Nat × Nat
+  | [nm] => ((ms[nm]!).wdata, (ms[nm]!).wdataWe)
+  | _ => (0, 0)
+
 /-- the registered outputs and the write-data routing visible in this cycle -/
 def out (c : Cfg) (s : State) (ms : Array MasterIn) (cb : Comb) : Out :=
-  let wr := (Array.range c.nmasters).map fun nm => (s.wdl[nm]!).getD (c.wlat - 1) false
-  let rv := (Array.range c.nmasters).map fun nm => (s.rdl[nm]!).getD (c.rlat - 1) false
-  -- `Case(Cat(*master_wdata_readys), {2**nm: ...})`: exactly one master ready
-  let sel := (List.range c.nmasters).filter fun nm => wr[nm]!
-  let (d, w) := match sel with
-    | [nm] => ((ms[nm]!).wdata, (ms[nm]!).wdataWe)
-    | _ => (0, 0)
-  { cmdReady := cb.cmdReady, wdataReady := wr, rdataValid := rv, ctlWdata := d, ctlWdataWe := w }
+  let dw := routeWdata ms (writers c s)
+  { cmdReady := cb.cmdReady, wdataReady := (Array.range c.nmasters).map (delayedW c s),
+    rdataValid := (Array.range c.nmasters).map (delayedR c s), ctlWdata := dw.1, ctlWdataWe := dw.2 }
 
 /-- clock edge, given the bank machines' strobes of this cycle -/
 def step (c : Cfg) (s : State) (cb : Comb) (fb : Array BankFb) (bankWdataReady bankRdataValid : Array Bool) : State :=
